@@ -133,6 +133,38 @@ pub fn fn_event(k: u64, d: &[u8], with_cfg: bool) -> Value {
             m.insert("key265".into(), json!(b));
         }
     }
+    // decoder-configuration extraction and packet validity, as values (judged against Av1Seq / Vp9Hdr / OpusPkt)
+    match catch(|| codec::av1::extract_av1_config(d)) {
+        Ok(Some(c)) => {
+            m.insert("av1".into(), json!({"some": true, "profile": c.seq_profile, "level": c.seq_level_idx, "tier": c.seq_tier,
+                "hb": c.high_bitdepth as u8, "tb": c.twelve_bit as u8, "mono": c.monochrome as u8,
+                "sx": c.chroma_subsampling_x as u8, "sy": c.chroma_subsampling_y as u8, "csp": c.chroma_sample_position,
+                "obu": bytes_json(&c.sequence_header)}));
+        }
+        Ok(None) => {
+            m.insert("av1".into(), json!({"some": false}));
+        }
+        Err(_) => {}
+    }
+    match catch(|| codec::vp9::extract_vp9_config(d)) {
+        Ok(Some(c)) => {
+            m.insert("vp9".into(), json!({"some": true, "profile": c.profile, "depth": c.bit_depth, "cs": c.color_space,
+                "tf": c.transfer_function, "mc": c.matrix_coefficients, "fr": c.full_range_flag, "level": c.level}));
+        }
+        Ok(None) => {
+            m.insert("vp9".into(), json!({"some": false}));
+        }
+        Err(_) => {}
+    }
+    if let Ok(r) = catch(|| codec::vp9::is_vp9_keyframe(d)) {
+        m.insert("vp9key".into(), json!(match r { Ok(true) => "key", Ok(false) => "notkey", Err(_) => "err" }));
+    }
+    if let Ok(b) = catch(|| codec::opus::is_valid_opus_packet(d)) {
+        m.insert("opusvalid".into(), json!(b));
+    }
+    if let Ok(v) = catch(|| codec::opus::opus_packet_samples(d)) {
+        m.insert("opussamples".into(), json!(v.map(|x| x as i64).unwrap_or(-1)));
+    }
     probe_panics(d, &mut panics);
     m.insert("panics".into(), Value::Array(panics));
     Value::Object(m)
